@@ -173,6 +173,8 @@ def r2(ctx):
     force = f.args.args[4].arg if len(f.args.args) > 4 else 'forceAppend'
     meth = f.args.args[3].arg if len(f.args.args) > 3 else 'method'
     cfg = CFG([tries[0]], exceptions=False)
+    clsdef = ctx.ix.cls(HANDLELIM, CLS)
+    class_tables = {t_.id: s_.value for s_ in clsdef.body if isinstance(s_, ast.Assign) and isinstance(s_.value, ast.Dict) for t_ in s_.targets if isinstance(t_, ast.Name)}
     n = 0
     bad = []
     for S, FA, M in itertools.product((True, False), repeat=3):
@@ -202,6 +204,18 @@ def r2(ctx):
                 d = dotted(c.func) or ''
                 if d in ('open', 'gzip.open') and len(c.args) >= 2:
                     m_ = c.args[1]
+                    if class_tables and any(isinstance(x, ast.Attribute) and isinstance(x.value, ast.Name) and x.value.id in ('self', CLS) and x.attr in class_tables for x in ast.walk(m_)):
+                        # a mode table kept as a class constant: `self._OPEN_MODES[gzipped, append]`
+                        import copy as _copy
+
+                        class _T(ast.NodeTransformer):
+                            def visit_Attribute(self, node):
+                                if isinstance(node.value, ast.Name) and node.value.id in ('self', CLS) and node.attr in class_tables:
+                                    return _copy.deepcopy(class_tables[node.attr])
+                                return self.generic_visit(node)
+                        v_ = eval3(_T().visit(_copy.deepcopy(m_)), cenv, atoms)
+                        if isinstance(v_, str):
+                            m_ = ast.Constant(value=v_)
                     for _ in range(3):
                         if isinstance(m_, ast.IfExp):
                             v = eval3(m_.test, cenv, atoms)
@@ -253,6 +267,12 @@ def r2(ctx):
     if idx is None:
         raise AnalysisError('HandleLimiter.write: `if path not in self.openHandles` not found')
     cfg2 = CFG(f.body[idx + 1:], exceptions=False)
+    # the record, or a local built from it (`payload = string if text else bytes(string, ..)`)
+    carriers = {f.args.args[2].arg}
+    for _ in range(3):
+        for s_ in walk_no_nested(f):
+            if isinstance(s_, ast.Assign) and len(s_.targets) == 1 and isinstance(s_.targets[0], ast.Name) and (names_in(s_.value) & carriers):
+                carriers.add(s_.targets[0].id)
     counts = set()
     for p, _ in cfg2.paths():
         if cfg2.nodes[p[-1][0]].info != 'fall':
@@ -260,7 +280,7 @@ def r2(ctx):
         k = 0
         for nid, _l in p:
             for c in node_calls(cfg2.nodes[nid]):
-                if isinstance(c.func, ast.Attribute) and c.func.attr == 'write' and "['handle']" in src(c.func.value) and names_in(c) & {f.args.args[2].arg}:
+                if isinstance(c.func, ast.Attribute) and c.func.attr == 'write' and ("['handle']" in src(c.func.value) or 'handle' in src(c.func.value).lower()) and names_in(c) & carriers:
                     k += 1
         counts.add(k)
     ctx.emit('C19-R2', counts == {1}, HANDLELIM, f, f'after the handle is available every path writes the record {sorted(counts)} time(s)', key='write-once')
@@ -391,10 +411,13 @@ def r3(ctx):
     tr = [t for t in walk_no_nested(f) if isinstance(t, ast.Try)][0]
     wl = [w for w in walk_no_nested(f) if isinstance(w, ast.While)]
     # two spellings of the retry loop: `while flag:` with the flag cleared after the open, or `while True:` left by `break` after the open
-    okw = len(wl) == 1 and (isinstance(wl[0].test, ast.Name) or (isinstance(wl[0].test, ast.Constant) and wl[0].test.value is True))
+    # ... or `while not done:` with the flag SET after the open
+    neg = len(wl) == 1 and isinstance(wl[0].test, ast.UnaryOp) and isinstance(wl[0].test.op, ast.Not) and isinstance(wl[0].test.operand, ast.Name)
+    okw = len(wl) == 1 and (isinstance(wl[0].test, ast.Name) or neg or (isinstance(wl[0].test, ast.Constant) and wl[0].test.value is True))
     okf = False
     if okw:
-        flag = wl[0].test.id if isinstance(wl[0].test, ast.Name) else None
+        flag = wl[0].test.id if isinstance(wl[0].test, ast.Name) else (wl[0].test.operand.id if neg else None)
+        leave_value = 'True' if neg else 'False'
         # the statements of the try's else-branch run right after a body that completed: they belong to the normal path
         tcfg = CFG(list(tr.body) + list(tr.orelse), exceptions=False)
         okf = True
@@ -407,7 +430,7 @@ def r3(ctx):
                 nn = tcfg.nodes[nid]
                 if any((dotted(c.func) or '') in ('open', 'gzip.open') for c in node_calls(nn)):
                     last_open = k
-                if flag is not None and nn.kind == 'stmt' and isinstance(nn.ast, ast.Assign) and src(nn.ast) == f'{flag} = False':
+                if flag is not None and nn.kind == 'stmt' and isinstance(nn.ast, ast.Assign) and src(nn.ast) == f'{flag} = {leave_value}':
                     last_clear = k
             if flag is None:
                 last_clear = len(p) if term == 'break' else -1
@@ -427,7 +450,7 @@ def r4(ctx):
             closed = False
             for nid, label in p:
                 nn = cfg.nodes[nid]
-                if nn.kind == 'test' and label == 'false' and "'handle' in" in src(nn.ast.test):
+                if nn.kind == 'test' and ((label == 'false' and "'handle' in" in src(nn.ast.test)) or (label == 'true' and "'handle' not in" in src(nn.ast.test))):
                     closed = True      # the entry holds no handle: nothing to close
                 if nn.kind == 'for' and label == 'false' and any(
                         isinstance(c, ast.Call) and isinstance(c.func, ast.Attribute) and c.func.attr == 'close' and 'handle' in src(c.func.value)
@@ -465,7 +488,12 @@ def r4(ctx):
         keyfn = keyfn.body
     ok = len(srt) == 1 and keyfn is not None and src(keyfn).startswith('self.openHandles[') and src(keyfn).endswith("['lastw']") and not any(k.arg == 'reverse' for k in srt[0].keywords) \
         and src(srt[0].args[0]) in ('self.openHandles', 'self.openHandles.keys()', 'list(self.openHandles.keys())', 'list(self.openHandles)')
-    sl = [n for n in walk_no_nested(f) if isinstance(n, ast.Subscript) and isinstance(n.slice, ast.Slice) and n.value in srt]
+    if not ok and len(srt) == 1 and not srt[0].keywords and srt[0].args and isinstance(srt[0].args[0], (ast.GeneratorExp, ast.ListComp)):
+        # decorate-sort: tuples (last write time, tie-breaker ..., path) sorted ascending
+        g_ = srt[0].args[0]
+        ok = isinstance(g_.elt, ast.Tuple) and len(g_.elt.elts) >= 2 and src(g_.elt.elts[0]).endswith("['lastw']") and 'self.openHandles' in src(g_.generators[0].iter) and not g_.generators[0].ifs
+    sorted_names = {s_.targets[0].id for s_ in walk_no_nested(f) if isinstance(s_, ast.Assign) and len(s_.targets) == 1 and isinstance(s_.targets[0], ast.Name) and s_.value in srt}
+    sl = [n for n in walk_no_nested(f) if isinstance(n, ast.Subscript) and isinstance(n.slice, ast.Slice) and (n.value in srt or (isinstance(n.value, ast.Name) and n.value.id in sorted_names))]
     ok = ok and len(sl) == 1 and sl[0].slice.lower is None and sl[0].slice.upper is not None
     ctx.emit('C19-R4', ok, HANDLELIM, f, 'prune() drops the least recently written handles (ascending lastw, prefix of length #open - maxHandles)', key='prune-oldest')
 
